@@ -311,7 +311,7 @@ Lemma setattr_traiterror_no_effect E c s n v s' :
   setattr E c s n v = (s', Raise ETraitError) -> s' = s.
 Proof.
   unfold setattr. destruct (trait_of c n) as [[d dflt]|]; [|intros H; now inversion H].
-  destruct (validate E d v) as [w| |e]; try (intros H; now inversion H).
+  destruct (if is_undefined v then Accept v else validate E d v) as [w| |e]; try (intros H; now inversion H).
   pose proof (post_raise_not_traiterror d w) as Hw. pose proof (post_raise_not_traiterror d dflt) as Hd.
   destruct (post_setattr d w) as [|x|e] eqn:Hp; [intros H; inversion H|..].
   all: destruct (get s n) as [o|].
@@ -367,9 +367,9 @@ Proof.
 Qed.
 
 Lemma setattr_inv E c s n v :
-  class_ok E c = true -> Inv E c s -> Inv E c (fst (setattr E c s n v)).
+  is_undefined v = false -> class_ok E c = true -> Inv E c s -> Inv E c (fst (setattr E c s n v)).
 Proof.
-  intros Hc HI. unfold setattr. destruct (trait_of c n) as [[d dflt]|] eqn:Ht; [|exact HI].
+  intros Hu Hc HI. unfold setattr. rewrite Hu. destruct (trait_of c n) as [[d dflt]|] eqn:Ht; [|exact HI].
   destruct (class_ok_at E c _ _ _ Hc Ht) as (Hs & Hr & Hd).
   destruct (validate E d v) as [w| |e] eqn:Hv; try exact HI.
   pose proof (validate_sound_lemma E d v w Hs Hv) as Hw.
@@ -403,31 +403,38 @@ Proof.
       * exact Hsetd.
 Qed.
 
+(* the values assigned are ordinary values, not the Undefined sentinel (which bypasses validation: F22) *)
+Definition kw_defined (kw : list (Z * pv)) : bool := forallb (fun p => negb (is_undefined (snd p))) kw.
+Definition ops_defined (ops : list op) : bool := forallb (fun o => kw_defined (snd o)) ops.
+
 Lemma assign_all_inv E c kw : forall s,
-  class_ok E c = true -> Inv E c s -> Inv E c (fst (assign_all E c s kw)).
+  kw_defined kw = true -> class_ok E c = true -> Inv E c s -> Inv E c (fst (assign_all E c s kw)).
 Proof.
-  induction kw as [|[n v] kw IH]; intros s Hc HI; cbn; [exact HI|].
-  pose proof (setattr_inv E c s n v Hc HI) as H1.
+  induction kw as [|[n v] kw IH]; intros s Hd Hc HI; cbn; [exact HI|].
+  cbn in Hd. apply andb_prop in Hd as [Hv Hd]. apply negb_true_iff in Hv.
+  pose proof (setattr_inv E c s n v Hv Hc HI) as H1.
   destruct (setattr E c s n v) as [s1 [|e]]; cbn in *; [now apply IH | exact H1].
 Qed.
 
 Lemma inv_empty E c : Inv E c [].
 Proof. intros n d dflt w _ H. discriminate. Qed.
 
-Lemma step_inv E c s o : class_ok E c = true -> Inv E c s -> Inv E c (fst (step E c s o)).
+Lemma step_inv E c s o :
+  kw_defined (snd o) = true -> class_ok E c = true -> Inv E c s -> Inv E c (fst (step E c s o)).
 Proof.
-  intros Hc HI. destruct o as [[| |] kw]; cbn.
+  intros Hd Hc HI. destruct o as [[| |] kw]; cbn in *.
   - now apply assign_all_inv.
   - now apply assign_all_inv.
-  - pose proof (assign_all_inv E c kw [] Hc (inv_empty E c)) as H1.
+  - pose proof (assign_all_inv E c kw [] Hd Hc (inv_empty E c)) as H1.
     destruct (assign_all E c [] kw) as [s1 [|e]]; cbn in *; assumption.
 Qed.
 
 Lemma run_inv E c ops : forall s,
-  class_ok E c = true -> Inv E c s -> Forall (fun r => Inv E c (fst r)) (run E c s ops).
+  ops_defined ops = true -> class_ok E c = true -> Inv E c s -> Forall (fun r => Inv E c (fst r)) (run E c s ops).
 Proof.
-  induction ops as [|o ops IH]; intros s Hc HI; cbn; [constructor|].
-  pose proof (step_inv E c s o Hc HI) as H1. destruct (step E c s o) as [s1 out]; cbn in *.
+  induction ops as [|o ops IH]; intros s Hd Hc HI; cbn; [constructor|].
+  cbn in Hd. apply andb_prop in Hd as [Ho Hd].
+  pose proof (step_inv E c s o Ho Hc HI) as H1. destruct (step E c s o) as [s1 out]; cbn in *.
   constructor; [exact H1 | now apply IH].
 Qed.
 
@@ -469,9 +476,9 @@ Proof.
 Qed.
 
 Lemma setattr_exception_no_effect E c s n v s' e :
-  post_safe c = true -> setattr E c s n v = (s', Raise e) -> s' = s.
+  is_undefined v = false -> post_safe c = true -> setattr E c s n v = (s', Raise e) -> s' = s.
 Proof.
-  unfold post_safe. rewrite forallb_forall. intros Hp. unfold setattr.
+  unfold post_safe. rewrite forallb_forall. intros Hu Hp. unfold setattr. rewrite Hu.
   destruct (trait_of c n) as [[d dflt]|] eqn:Ht; [|intros H; now inversion H].
   specialize (Hp _ (trait_of_in _ _ _ _ Ht)). cbn in Hp.
   destruct (validate E d v) as [w| |e0] eqn:Hv; try (intros H; now inversion H).
@@ -492,9 +499,9 @@ Proof.
 Qed.
 
 Lemma step_failure_no_effect E c s h n v s' e :
-  post_safe c = true -> step E c s (h, [(n, v)]) = (s', Raise e) -> s' = s.
+  is_undefined v = false -> post_safe c = true -> step E c s (h, [(n, v)]) = (s', Raise e) -> s' = s.
 Proof.
-  intros Hp. destruct h; cbn.
+  intros Hu Hp. destruct h; cbn.
   1,2: destruct (setattr E c s n v) as [s1 [|e1]] eqn:Hs; intros H; inversion H; subst;
        eapply setattr_exception_no_effect; eauto.
   destruct (setattr E c [] n v) as [s1 [|e1]]; intros H; inversion H; reflexivity.
@@ -509,6 +516,12 @@ Lemma exception_no_effect_refuted_lemma :
   let c := [(0, (DCompound [DMap [(PStr [97], PInt 1)]; DInt], PNone))] in
   exists s' e, setattr E c [] 0 (PInt 5) = (s', Raise e) /\ e <> ETraitError /\ s' <> [].
 Proof. eexists. eexists. vm_compute. repeat split; discriminate. Qed.
+
+(* F22: the Undefined sentinel is stored without validation *)
+Lemma undefined_bypass_lemma :
+  let c := [(0, (DInt, PInt 0))] in
+  class_ok E0 c = true /\ setattr E0 c [] 0 PUndefined = ([(0, PUndefined)], Ok) /\ dom E0 DInt PUndefined = false.
+Proof. vm_compute. repeat split. Qed.
 
 (* non-vacuity *)
 Lemma class_ok_example :
@@ -656,11 +669,11 @@ Proof.
 Qed.
 
 Lemma setattr_exception_class E c s n v s' e d dflt :
-  post_safe c = true -> trait_of c n = Some (d, dflt) -> wf_desc d = true ->
+  is_undefined v = false -> post_safe c = true -> trait_of c n = Some (d, dflt) -> wf_desc d = true ->
   setattr E c s n v = (s', Raise e) -> e = ETraitError \/ raises_own v e = true.
 Proof.
-  intros Hp Ht Hwf. pose proof (setattr_exception_no_effect E c s n v s' e Hp) as Hne.
-  unfold setattr in *. rewrite Ht in *.
+  intros Hu Hp Ht Hwf. pose proof (setattr_exception_no_effect E c s n v s' e Hu Hp) as Hne.
+  unfold setattr in *. rewrite Hu, Ht in *.
   destruct (validate E d v) as [w| |e0] eqn:Hv.
   - (* accepted: an exception can only come from post_setattr, excluded by post_safe *)
     unfold post_safe in Hp. rewrite forallb_forall in Hp. specialize (Hp _ (trait_of_in _ _ _ _ Ht)). cbn in Hp.
@@ -909,4 +922,21 @@ Proof.
     destruct (first_outcome_map_accept _ _ _ Hv) as (pre & a & post & -> & Hav & _).
     cbn [wf_desc] in Hwf. apply andb_prop in Hwf as [Hwf _].
     cbn [conv_ok]. eapply alts_conv; eauto. apply in_or_app. right. now left.
+Qed.
+
+(* the Python path, too, only accepts values of the declared domain — for every trait type with a fast
+   descriptor, as a corollary of fast_eq_slow and validate_sound *)
+Lemma py_validate_sound_lemma E d v w :
+  sound_hyp E d = true -> c03_scope d = true -> benign E d v = true ->
+  py_validate E d v = Accept w -> dom E d w = true.
+Proof.
+  intros Hs Hc Hb Hp.
+  assert (Hwf : wf_desc d = true).
+  { unfold sound_hyp in Hs. apply andb_prop in Hs as [Hs _]. apply andb_prop in Hs as [Hs _].
+    now apply andb_prop in Hs as [Hs _]. }
+  pose proof (fast_eq_slow_lemma E d v Hwf Hc Hb) as Ha. rewrite Hp in Ha.
+  unfold agrees, same_accept_set, same_value_and_type in Ha.
+  destruct (c_validate E d v) as [x| |e] eqn:Hcv; cbn in Ha; try discriminate.
+  apply andb_prop in Ha as [Ha _]. apply pv_eqb_true in Ha. subst.
+  now apply (validate_sound_lemma E d v w Hs).
 Qed.
